@@ -34,6 +34,12 @@ REQUIRED_CLASSES = {'quick': ['tmpl:ctor', 'tmpl:transfer', 'tmpl:fill', 'tmpl:d
                     'thorough': ['tmpl:ctor', 'tmpl:transfer', 'tmpl:fill', 'tmpl:dilute', 'tmpl:solution',
                                  'tmpl:solution_from', 'helper:hru', 'helper:std']}
 
+def shard_config(shard, tier):
+    """a quarter of the shards run under other storage units: the texts must state the same physical amounts"""
+    return {3: {'moles_storage_unit': 'mmol', 'volume_storage_unit': 'mL'},
+            1: {'moles_storage_unit': 'mol', 'volume_storage_unit': 'L', 'internal_precision': 14}}.get(shard % 4)
+
+
 NUM = r'[-+]?(?:\d+\.?\d*|\.\d+)(?:[eE][-+]?\d+)?|inf|nan'
 
 
